@@ -4,5 +4,7 @@ StakeEq   == [o \in Oracle |-> 1]
 StakeSkew == [o \in Oracle |-> CASE o = "o1" -> 5 [] o = "o2" -> 3 [] o = "o3" -> 2 [] OTHER -> 1]
 \* one oracle just below the 66% bar / two of three exactly on it
 StakeEdge2 == [o \in Oracle |-> CASE o = "o1" -> 65 [] o = "o2" -> 35 [] OTHER -> 1]
+\* total not a multiple of 100 (the bar 66*total/100 truncates differently from (total/100)*66); one oracle holds just over half
+StakeOdd2 == [o \in Oracle |-> CASE o = "o1" -> 100 [] o = "o2" -> 99 [] OTHER -> 1]
 StakeEdge3 == [o \in Oracle |-> CASE o = "o1" -> 34 [] o = "o2" -> 33 [] o = "o3" -> 33 [] OTHER -> 1]
 =============================================================================
